@@ -13,7 +13,7 @@ THEOREMS = [(M, "NQ.C06." + n) for n in [
     "nothing_left_after", "f7_old_counterexample",
     "compile_commit_eq_flush_interleaved", "reset_at_commit_counterexample",
     "instantiate_pure", "instantiate_failed_unchanged", "instantiate_reuse", "instantiate_reuse_total",
-    "inplace_counterexample"]]
+    "inplace_counterexample", "assignLabel_subst", "label_named_template_counterexample"]]
 TRANSLATORS = ["template_table"]
 LEVEL_TEXT = (
     "Lean theorems: (1) instantiate substitutes template operands in place, so the instantiated "
@@ -107,7 +107,13 @@ def run(ctx):
         res.count("cfg:%s%s" % ("nv" if cfg["nv"] else "generic", "+transp" if cfg["transp"] else ""))
         for st in prog["events"]:
             res.count("event:" + st["k"])
-        has_t = any(isinstance(st.get("n"), dict) for st in prog["events"])
+        flat = [b for st in prog["events"] for b in [st] + list(st.get("steps", []))]
+        has_t = any(isinstance(st.get("n"), dict) for st in flat)
+        names = {st["n"]["t"] for st in flat if isinstance(st.get("n"), dict)}
+        if names & set(H.NAMES):
+            res.count("template names: adversarial (label-, register-, macro-, mnemonic-like)")
+        if any(isinstance(b.get("n"), dict) for st in prog["events"] for b in st.get("steps", [])):
+            res.count("templated rotation inside a loop / conditional block")
         if has_t:
             res.nontrivial.add(json.dumps(prog, sort_keys=True))
         if any(e["k"] in H.BUILD_KINDS and 0 < P["events"][i - 1]["outstanding"]
@@ -222,7 +228,7 @@ def run(ctx):
     P, D = one(REUSE, "tpl.corpus")
     res.samples.append({"prog": REUSE, "msgs": len(P["msgs"] or [])})
     res.samples.append({"prog": INTERLEAVED, "futures": P["futures"], "msgs": len(P["msgs"] or [])})
-    n = 30000 if ctx.thorough else 2500
+    n = 24000 if ctx.thorough else 1700
     for it in range(n):
         prog = H.random_program(rng, ctx.thorough)
         P, D = one(prog, "tpl.random")
